@@ -308,3 +308,52 @@ def hamiltonian_structure(ctx) -> None:
     ctx.ob("HAM-form", "complex flag and Ω/2", init.loc(), bool(okc) and oko,
            "complex ⇔ any phase non-zero; stored amplitude is Ω/2" if okc and oko else
            f"complex = {show(cx) if cx else None}, omegas = {show(om)[:40] if om else None}")
+
+
+def sv_density_matrix_energy(ctx) -> None:
+    """Density-matrix versions of the energy moments: second moment = tr(H·(Hρ)) — `hamiltonian.expect` of the density
+    matrix H_eff ρ — and variance = that minus tr(Hρ)².  (The state-vector shortcut ⟨Hψ|Hψ⟩ applied to ρ is tr(ρ²H²),
+    equal only for pure states.)"""
+    prog = ctx.prog
+    SCBq = "emu_sv.custom_callback_implementations."
+
+    def peel(t):
+        t = strip_typed(t)
+        while t[0] == "mcall" and t[2] in ("cpu", "real", "item"):
+            t = strip_typed(t[1])
+        return t
+
+    def is_e2(t, f):
+        t = peel(t)
+        ham = ("param", f.qualname, "hamiltonian")
+        st = ("param", f.qualname, "state")
+        if not (t[0] == "mcall" and strip_typed(t[1]) == ham and t[2].endswith("expect") and len(t[3]) == 1):
+            return False
+        d = strip_typed(t[3][0])
+        if not (d[0] == "new" and d[1].endswith("DensityMatrix") and d[2]):
+            return False
+        h = strip_typed(d[2][0])
+        return h[0] == "mcall" and strip_typed(h[1]) == ham and h[2].endswith("h_eff") and len(h[3]) >= 1 and \
+            strip_typed(h[3][0]) == ("attr", st, "data")
+
+    f2, p2 = _ret(ctx, SCBq + "energy_second_moment_den_mat_impl")
+    ok2 = bool(p2) and all(is_e2(p.retval, f2) for p in p2)
+    ctx.ob("OBSDEF", "sv density-matrix second moment", f2.loc(), ok2,
+           "second moment = tr(H·(H_eff ρ)) = hamiltonian.expect(DensityMatrix(hamiltonian.h_eff(ρ)))" if ok2 else
+           f"energy_second_moment_den_mat_impl returns {show(p2[0].retval)[:100] if p2 else '?'}, not tr(H·Hρ)")
+    fv, pv = _ret(ctx, SCBq + "energy_variance_sv_den_mat_impl")
+    okv = bool(pv)
+    for p in pv:
+        r = peel(p.retval)
+        mons = monomials(r)
+        ham = ("param", fv.qualname, "hamiltonian")
+        st = ("param", fv.qualname, "state")
+        e1 = ("mcall", ham, "emu_sv.lindblad_operator.RydbergLindbladian.expect", (st,), ())
+        got2 = [c for m, c in mons.items() if len(m) == 1 and is_e2(m[0], fv)]
+        got1 = [c for m, c in mons.items() if len(m) == 2 and all(peel(a)[0] == "mcall" and peel(a)[2].endswith("expect") and
+                                                                    len(peel(a)[3]) == 1 and strip_typed(peel(a)[3][0]) == st for a in m)]
+        okv = okv and len(mons) == 2 and got2 == [1] and got1 == [-1]
+    ctx.ob("OBSDEF", "sv density-matrix energy variance", fv.loc(), okv,
+           "variance = tr(H·Hρ) − tr(Hρ)²" if okv else
+           f"energy_variance_sv_den_mat_impl returns {show(pv[0].retval)[:110] if pv else '?'}, not tr(H·Hρ) − tr(Hρ)²: for a "
+           f"mixed state (any noisy run) the reported variance is wrong and can be negative")
